@@ -13,6 +13,7 @@ Fixpoint plus_b (b : branch) : branch :=
   | BQ cs c QPlus rel b' => BQ (cs ++ [c]) c QStar rel (plus_b b')
   | BQ cs c k rel b' => BQ cs c k rel (plus_b b')
   | BAn cs eol b' => BAn cs eol (plus_b b')
+  | BD cs q b' => BD cs q (plus_b b')
   end
 with plus_a (a : alt) : alt :=
   match a with
@@ -27,6 +28,7 @@ Fixpoint opt_b (b : branch) : branch :=
   | BQ cs c QOpt false b' => BGrp cs true (ACons (BEnd [c]) (AOne (BEnd []))) (opt_b b')
   | BQ cs c k rel b' => BQ cs c k rel (opt_b b')
   | BAn cs eol b' => BAn cs eol (opt_b b')
+  | BD cs q b' => BD cs q (opt_b b')
   end
 with opt_a (a : alt) : alt :=
   match a with
@@ -42,6 +44,7 @@ Fixpoint atl_b (b : branch) : branch :=
   | BQ cs c (QBr ds BrOpen) rel b' => BQ (cs ++ repeat c (N.to_nat (dec ds))) c QStar rel (atl_b b')
   | BQ cs c k rel b' => BQ cs c k rel (atl_b b')
   | BAn cs eol b' => BAn cs eol (atl_b b')
+  | BD cs q b' => BD cs q (atl_b b')
   end
 with atl_a (a : alt) : alt :=
   match a with
@@ -65,6 +68,7 @@ Fixpoint bnd_b (b : branch) : branch :=
       else BQ cs c (QBr ds (BrTo d2)) rel (bnd_b b')
   | BQ cs c k rel b' => BQ cs c k rel (bnd_b b')
   | BAn cs eol b' => BAn cs eol (bnd_b b')
+  | BD cs q b' => BD cs q (bnd_b b')
   end
 with bnd_a (a : alt) : alt :=
   match a with
@@ -95,6 +99,7 @@ Proof.
     apply andb_true_iff in H as [H Hr]. apply andb_true_iff in H as [Hcs Hc].
     destruct k; cbn [plus_b ok_b]; rewrite ?Hcs, ?Hc, ?Hr, ?Hk, ?(IHb Hb), ?(forallb_app_one cs c Hcs Hc); reflexivity.
   - intros cs eol b IHb H. cbn [plus_b ok_b] in *. apply andb_true_iff in H as [H Hb]. rewrite H, (IHb Hb). reflexivity.
+  - intros cs q b IHb H. cbn [plus_b ok_b] in *. apply andb_true_iff in H as [H Hb]. rewrite H, (IHb Hb). reflexivity.
   - intros b IHb H. exact (IHb H).
   - intros b IHb a IHa H. cbn [plus_a ok_a] in *. apply andb_true_iff in H as [H1 H2]. rewrite (IHb H1), (IHa H2). reflexivity.
 Qed.
@@ -110,6 +115,7 @@ Proof.
     apply andb_true_iff in H as [H Hr]. apply andb_true_iff in H as [Hcs Hc].
     destruct k, rel; cbn [opt_b ok_b ok_a forallb orb]; rewrite ?Hcs, ?Hc, ?Hr, ?Hk, ?(IHb Hb); reflexivity.
   - intros cs eol b IHb H. cbn [opt_b ok_b] in *. apply andb_true_iff in H as [H Hb]. rewrite H, (IHb Hb). reflexivity.
+  - intros cs q b IHb H. cbn [opt_b ok_b] in *. apply andb_true_iff in H as [H Hb]. rewrite H, (IHb Hb). reflexivity.
   - intros b IHb H. exact (IHb H).
   - intros b IHb a IHa H. cbn [opt_a ok_a] in *. apply andb_true_iff in H as [H1 H2]. rewrite (IHb H1), (IHa H2). reflexivity.
 Qed.
@@ -129,6 +135,7 @@ Proof.
     apply andb_true_iff in H as [H Hr]. apply andb_true_iff in H as [Hcs Hc].
     destruct k as [| | |ds [| |d2]]; cbn [atl_b ok_b]; rewrite ?Hcs, ?Hc, ?Hr, ?Hk, ?(IHb Hb), ?(forallb_app_rep cs c _ Hcs Hc); reflexivity.
   - intros cs eol b IHb H. cbn [atl_b ok_b] in *. apply andb_true_iff in H as [H Hb]. rewrite H, (IHb Hb). reflexivity.
+  - intros cs q b IHb H. cbn [atl_b ok_b] in *. apply andb_true_iff in H as [H Hb]. rewrite H, (IHb Hb). reflexivity.
   - intros b IHb H. exact (IHb H).
   - intros b IHb a IHa H. cbn [atl_a ok_a] in *. apply andb_true_iff in H as [H1 H2]. rewrite (IHb H1), (IHa H2). reflexivity.
 Qed.
@@ -152,15 +159,16 @@ Proof.
     + cbn [ok_b okq]. rewrite (forallb_app_rep cs c _ Hcs Hc), Hc, Hr, (opts_ok xpath c rel _ _ Hc Hr (IHb Hb)). reflexivity.
     + cbn [ok_b]. rewrite Hcs, Hc, Hr, Hk, (IHb Hb). reflexivity.
   - intros cs eol b IHb H. cbn [bnd_b ok_b] in *. apply andb_true_iff in H as [H Hb]. rewrite H, (IHb Hb). reflexivity.
+  - intros cs q b IHb H. cbn [bnd_b ok_b] in *. apply andb_true_iff in H as [H Hb]. rewrite H, (IHb Hb). reflexivity.
   - intros b IHb H. exact (IHb H).
   - intros b IHb a IHa H. cbn [bnd_a ok_a] in *. apply andb_true_iff in H as [H1 H2]. rewrite (IHb H1), (IHa H2). reflexivity.
 Qed.
 
 Section Laws.
 Variable input : list N.
-Variable ci multi : bool.
+Variable ci multi single : bool.
 Let n := length input.
-Let fl := fl_of ci multi.
+Let fl := fl_of ci multi single.
 
 Lemma lit_one c m q : m <= n -> (In q (lit input ci [c] m) <-> In q (ends fl input (RChar c) m)).
 Proof.
@@ -185,7 +193,7 @@ Qed.
 
 (* c+ = c c*  (greedy and reluctant alike: the set of end positions is the same) *)
 Lemma plus_step c rel m q : m <= n ->
-  (In q (Dq input ci multi c QPlus rel m) <-> exists k, In k (lit input ci [c] m) /\ In q (Dq input ci multi c QStar rel k)).
+  (In q (Dq input ci multi single c QPlus rel m) <-> exists k, In k (lit input ci [c] m) /\ In q (Dq input ci multi single c QStar rel k)).
 Proof.
   intros Hm. unfold Dq. cbn [qmin qmaxo].
   pose proof (law_plus fl input (RChar c) (negb rel) I m q Hm) as L. fold fl. rewrite L.
@@ -196,7 +204,7 @@ Qed.
 
 (* c? = (c|) *)
 Lemma opt_step c m q : m <= n ->
-  (In q (Dq input ci multi c QOpt false m) <-> In q (lit input ci [c] m ++ lit input ci [] m)).
+  (In q (Dq input ci multi single c QOpt false m) <-> In q (lit input ci [c] m ++ lit input ci [] m)).
 Proof.
   intros Hm. unfold Dq. cbn [qmin qmaxo negb]. fold fl.
   assert (W : quant_wf (RQuant (RChar c) 0 (Some 1%N) true)) by (cbn [quant_wf]; split; [exact I|lia]).
@@ -229,8 +237,8 @@ Qed.
 
 (* c{n,} = c^n c*  (greedy and reluctant alike: the set of end positions is the same) *)
 Lemma atl_step c ds rel m q : m <= n ->
-  (In q (Dq input ci multi c (QBr ds BrOpen) rel m)
-   <-> exists k, In k (lit input ci (repeat c (N.to_nat (dec ds))) m) /\ In q (Dq input ci multi c QStar rel k)).
+  (In q (Dq input ci multi single c (QBr ds BrOpen) rel m)
+   <-> exists k, In k (lit input ci (repeat c (N.to_nat (dec ds))) m) /\ In q (Dq input ci multi single c QStar rel k)).
 Proof.
   intros Hm. unfold Dq. cbn [qmin qmaxo]. fold fl.
   set (k0 := N.to_nat (dec ds)). replace (dec ds) with (N.of_nat k0) by (subst k0; apply N2Nat.id).
@@ -252,22 +260,22 @@ Qed.
 
 (* a chain of d optional characters, then b *)
 Lemma opts_D c rel d : forall b p q, p <= n ->
-  (In q (Db input ci multi (opts c rel d b) p)
-   <-> exists k, seq_reach fl input (repeat (RQuant (RChar c) 0 (Some 1%N) (negb rel)) d) p k /\ In q (Db input ci multi b k)).
+  (In q (Db input ci multi single (opts c rel d b) p)
+   <-> exists k, seq_reach fl input (repeat (RQuant (RChar c) 0 (Some 1%N) (negb rel)) d) p k /\ In q (Db input ci multi single b k)).
 Proof.
   induction d as [|d IH]; intros b p q Hp; cbn [opts repeat seq_reach].
   - split; [intros H; exists p; auto|intros (k & -> & H); exact H].
   - cbn [Db]. rewrite (lit_nil input ci p Hp). cbn [flat_map]. rewrite app_nil_r, in_flat_map. split.
-    + intros (k & Hk & H). assert (k <= n) by (exact (Dq_le input ci multi c QOpt rel p k eq_refl Hp Hk)).
+    + intros (k & Hk & H). assert (k <= n) by (exact (Dq_le input ci multi single c QOpt rel p k eq_refl Hp Hk)).
       apply IH in H; [|assumption]. destruct H as (k2 & R & H). exists k2. split; [|exact H]. exists k. split; [exact Hk|exact R].
     + intros (k2 & (k & Hk & R) & H). exists k. split; [exact Hk|].
-      assert (k <= n) by (exact (Dq_le input ci multi c QOpt rel p k eq_refl Hp Hk)).
+      assert (k <= n) by (exact (Dq_le input ci multi single c QOpt rel p k eq_refl Hp Hk)).
       apply IH; [assumption|]. exists k2. auto.
 Qed.
 
 (* c{n,m}, n < m *)
 Lemma bnd_step c ds d2 rel m q : (dec ds < dec d2)%N -> m <= n ->
-  (In q (Dq input ci multi c (QBr ds (BrTo d2)) rel m)
+  (In q (Dq input ci multi single c (QBr ds (BrTo d2)) rel m)
    <-> exists k, In k (lit input ci (repeat c (N.to_nat (dec ds))) m)
                  /\ seq_reach fl input (repeat (RQuant (RChar c) 0 (Some 1%N) (negb rel)) (N.to_nat (dec d2 - dec ds))) k q).
 Proof.
@@ -292,8 +300,8 @@ Proof.
 Qed.
 
 Theorem plus_D xpath :
-     (forall b, ok_b xpath b = true -> forall p q, p <= n -> (In q (Db input ci multi (plus_b b) p) <-> In q (Db input ci multi b p)))
-  /\ (forall a, ok_a xpath a = true -> forall p q, p <= n -> (In q (Da input ci multi (plus_a a) p) <-> In q (Da input ci multi a p))).
+     (forall b, ok_b xpath b = true -> forall p q, p <= n -> (In q (Db input ci multi single (plus_b b) p) <-> In q (Db input ci multi single b p)))
+  /\ (forall a, ok_a xpath a = true -> forall p q, p <= n -> (In q (Da input ci multi single (plus_a a) p) <-> In q (Da input ci multi single a p))).
 Proof.
   apply branch_alt_ind.
   - intros cs _ p q Hp. reflexivity.
@@ -302,12 +310,12 @@ Proof.
     apply flat_map_eqv.
     + intros x. apply flat_map_eqv; [reflexivity|]. intros k Hk y. apply (IHa Oka). apply lit_le in Hk. tauto.
     + intros x Hx y. apply (IHb Okb). apply in_flat_map in Hx as (k & Hk & Hx). apply lit_le in Hk.
-      eapply (proj2 (D_le input ci multi xpath)); [apply (proj2 (plus_ok xpath)); exact Oka| |exact Hx]. tauto.
+      eapply (proj2 (D_le input ci multi single xpath)); [apply (proj2 (plus_ok xpath)); exact Oka| |exact Hx]. tauto.
   - intros cs c k rel b IHb Hok p q Hp. cbn [ok_b] in Hok. apply andb_true_iff in Hok as [Hok Okb].
     apply andb_true_iff in Hok as [_ Hkq].
-    assert (Same : forall k0, okq k0 = true -> In q (Db input ci multi (BQ cs c k0 rel (plus_b b)) p) <-> In q (Db input ci multi (BQ cs c k0 rel b) p)).
+    assert (Same : forall k0, okq k0 = true -> In q (Db input ci multi single (BQ cs c k0 rel (plus_b b)) p) <-> In q (Db input ci multi single (BQ cs c k0 rel b) p)).
     { intros k0 Hk0q. cbn [Db]. apply flat_map_eqv; [reflexivity|]. intros x Hx y. apply (IHb Okb).
-      apply in_flat_map in Hx as (k1 & Hk1 & Hx). apply lit_le in Hk1. eapply (Dq_le input ci multi); [exact Hk0q| |exact Hx]. tauto. }
+      apply in_flat_map in Hx as (k1 & Hk1 & Hx). apply lit_le in Hk1. eapply (Dq_le input ci multi single); [exact Hk0q| |exact Hx]. tauto. }
     destruct k; cbn [plus_b]; try (apply Same; exact Hkq).
     (* QPlus *)
     cbn [Db]. apply flat_map_eqv.
@@ -317,18 +325,21 @@ Proof.
       * intros (k0 & Hk0 & Hx). apply plus_step in Hx; [|apply lit_le in Hk0; tauto]. destruct Hx as (k1 & Hk1 & Hx).
         exists k1. split; [|exact Hx]. apply (lit_app cs c p k1 Hp). eauto.
     + intros x Hx y. apply (IHb Okb). apply in_flat_map in Hx as (k1 & Hk1 & Hx). apply lit_le in Hk1.
-      eapply (Dq_le input ci multi); [|  |exact Hx]; [reflexivity|]. tauto.
+      eapply (Dq_le input ci multi single); [|  |exact Hx]; [reflexivity|]. tauto.
   - intros cs eol b IHb Hok p q Hp. cbn [ok_b] in Hok. apply andb_true_iff in Hok as [_ Okb].
     cbn [plus_b Db]. apply flat_map_eqv; [reflexivity|]. intros x Hx y. apply (IHb Okb).
-    apply in_flat_map in Hx as (k1 & Hk1 & Hx). apply lit_le in Hk1. eapply (Dan_le input ci multi); [|exact Hx]. tauto.
+    apply in_flat_map in Hx as (k1 & Hk1 & Hx). apply lit_le in Hk1. eapply (Dan_le input ci multi single); [|exact Hx]. tauto.
+  - intros cs q0 b IHb Hok p q Hp. cbn [ok_b] in Hok. apply andb_true_iff in Hok as [Hok Okb]. apply andb_true_iff in Hok as [_ Hkq].
+    cbn [plus_b Db]. apply flat_map_eqv; [reflexivity|]. intros x Hx y. apply (IHb Okb).
+    apply in_flat_map in Hx as (k1 & Hk1 & Hx). apply lit_le in Hk1. eapply (Dd_le input ci multi single xpath); [exact Hkq| |exact Hx]. tauto.
   - intros b IHb Hok p q Hp. exact (IHb Hok p q Hp).
   - intros b IHb a IHa Hok p q Hp. cbn [ok_a] in Hok. apply andb_true_iff in Hok as [Okb Oka].
     cbn [plus_a Da]. rewrite !in_app_iff, (IHb Okb p q Hp), (IHa Oka p q Hp). reflexivity.
 Qed.
 
 Theorem opt_D xpath :
-     (forall b, ok_b xpath b = true -> forall p q, p <= n -> (In q (Db input ci multi (opt_b b) p) <-> In q (Db input ci multi b p)))
-  /\ (forall a, ok_a xpath a = true -> forall p q, p <= n -> (In q (Da input ci multi (opt_a a) p) <-> In q (Da input ci multi a p))).
+     (forall b, ok_b xpath b = true -> forall p q, p <= n -> (In q (Db input ci multi single (opt_b b) p) <-> In q (Db input ci multi single b p)))
+  /\ (forall a, ok_a xpath a = true -> forall p q, p <= n -> (In q (Da input ci multi single (opt_a a) p) <-> In q (Da input ci multi single a p))).
 Proof.
   apply branch_alt_ind.
   - intros cs _ p q Hp. reflexivity.
@@ -337,12 +348,12 @@ Proof.
     apply flat_map_eqv.
     + intros x. apply flat_map_eqv; [reflexivity|]. intros k Hk y. apply (IHa Oka). apply lit_le in Hk. tauto.
     + intros x Hx y. apply (IHb Okb). apply in_flat_map in Hx as (k & Hk & Hx). apply lit_le in Hk.
-      eapply (proj2 (D_le input ci multi xpath)); [apply (proj2 (opt_ok xpath)); exact Oka| |exact Hx]. tauto.
+      eapply (proj2 (D_le input ci multi single xpath)); [apply (proj2 (opt_ok xpath)); exact Oka| |exact Hx]. tauto.
   - intros cs c k rel b IHb Hok p q Hp. cbn [ok_b] in Hok. apply andb_true_iff in Hok as [Hok Okb].
     apply andb_true_iff in Hok as [_ Hkq].
-    assert (Same : forall k0 r0, okq k0 = true -> In q (Db input ci multi (BQ cs c k0 r0 (opt_b b)) p) <-> In q (Db input ci multi (BQ cs c k0 r0 b) p)).
+    assert (Same : forall k0 r0, okq k0 = true -> In q (Db input ci multi single (BQ cs c k0 r0 (opt_b b)) p) <-> In q (Db input ci multi single (BQ cs c k0 r0 b) p)).
     { intros k0 r0 Hk0q. cbn [Db]. apply flat_map_eqv; [reflexivity|]. intros x Hx y. apply (IHb Okb).
-      apply in_flat_map in Hx as (k1 & Hk1 & Hx). apply lit_le in Hk1. eapply (Dq_le input ci multi); [exact Hk0q| |exact Hx]. tauto. }
+      apply in_flat_map in Hx as (k1 & Hk1 & Hx). apply lit_le in Hk1. eapply (Dq_le input ci multi single); [exact Hk0q| |exact Hx]. tauto. }
     destruct k, rel; cbn [opt_b]; try (apply Same; exact Hkq).
     (* c? *)
     cbn [Db Da]. apply flat_map_eqv.
@@ -351,15 +362,18 @@ Proof.
       assert (k1 <= n) by tauto. apply in_app_iff in Hx as [Hx|Hx]; apply lit_le in Hx; tauto.
   - intros cs eol b IHb Hok p q Hp. cbn [ok_b] in Hok. apply andb_true_iff in Hok as [_ Okb].
     cbn [opt_b Db]. apply flat_map_eqv; [reflexivity|]. intros x Hx y. apply (IHb Okb).
-    apply in_flat_map in Hx as (k1 & Hk1 & Hx). apply lit_le in Hk1. eapply (Dan_le input ci multi); [|exact Hx]. tauto.
+    apply in_flat_map in Hx as (k1 & Hk1 & Hx). apply lit_le in Hk1. eapply (Dan_le input ci multi single); [|exact Hx]. tauto.
+  - intros cs q0 b IHb Hok p q Hp. cbn [ok_b] in Hok. apply andb_true_iff in Hok as [Hok Okb]. apply andb_true_iff in Hok as [_ Hkq].
+    cbn [opt_b Db]. apply flat_map_eqv; [reflexivity|]. intros x Hx y. apply (IHb Okb).
+    apply in_flat_map in Hx as (k1 & Hk1 & Hx). apply lit_le in Hk1. eapply (Dd_le input ci multi single xpath); [exact Hkq| |exact Hx]. tauto.
   - intros b IHb Hok p q Hp. exact (IHb Hok p q Hp).
   - intros b IHb a IHa Hok p q Hp. cbn [ok_a] in Hok. apply andb_true_iff in Hok as [Okb Oka].
     cbn [opt_a Da]. rewrite !in_app_iff, (IHb Okb p q Hp), (IHa Oka p q Hp). reflexivity.
 Qed.
 
 Theorem atl_D xpath :
-     (forall b, ok_b xpath b = true -> forall p q, p <= n -> (In q (Db input ci multi (atl_b b) p) <-> In q (Db input ci multi b p)))
-  /\ (forall a, ok_a xpath a = true -> forall p q, p <= n -> (In q (Da input ci multi (atl_a a) p) <-> In q (Da input ci multi a p))).
+     (forall b, ok_b xpath b = true -> forall p q, p <= n -> (In q (Db input ci multi single (atl_b b) p) <-> In q (Db input ci multi single b p)))
+  /\ (forall a, ok_a xpath a = true -> forall p q, p <= n -> (In q (Da input ci multi single (atl_a a) p) <-> In q (Da input ci multi single a p))).
 Proof.
   apply branch_alt_ind.
   - intros cs _ p q Hp. reflexivity.
@@ -368,12 +382,12 @@ Proof.
     apply flat_map_eqv.
     + intros x. apply flat_map_eqv; [reflexivity|]. intros k Hk y. apply (IHa Oka). apply lit_le in Hk. tauto.
     + intros x Hx y. apply (IHb Okb). apply in_flat_map in Hx as (k & Hk & Hx). apply lit_le in Hk.
-      eapply (proj2 (D_le input ci multi xpath)); [apply (proj2 (atl_ok xpath)); exact Oka| |exact Hx]. tauto.
+      eapply (proj2 (D_le input ci multi single xpath)); [apply (proj2 (atl_ok xpath)); exact Oka| |exact Hx]. tauto.
   - intros cs c k rel b IHb Hok p q Hp. cbn [ok_b] in Hok. apply andb_true_iff in Hok as [Hok Okb].
     apply andb_true_iff in Hok as [_ Hkq].
-    assert (Same : forall k0, okq k0 = true -> In q (Db input ci multi (BQ cs c k0 rel (atl_b b)) p) <-> In q (Db input ci multi (BQ cs c k0 rel b) p)).
+    assert (Same : forall k0, okq k0 = true -> In q (Db input ci multi single (BQ cs c k0 rel (atl_b b)) p) <-> In q (Db input ci multi single (BQ cs c k0 rel b) p)).
     { intros k0 Hk0q. cbn [Db]. apply flat_map_eqv; [reflexivity|]. intros x Hx y. apply (IHb Okb).
-      apply in_flat_map in Hx as (k1 & Hk1 & Hx). apply lit_le in Hk1. eapply (Dq_le input ci multi); [exact Hk0q| |exact Hx]. tauto. }
+      apply in_flat_map in Hx as (k1 & Hk1 & Hx). apply lit_le in Hk1. eapply (Dq_le input ci multi single); [exact Hk0q| |exact Hx]. tauto. }
     destruct k as [| | |ds [| |d2]]; cbn [atl_b]; try (apply Same; exact Hkq).
     (* {n,} *)
     cbn [Db]. apply flat_map_eqv.
@@ -383,18 +397,21 @@ Proof.
       * intros (k0 & Hk0 & Hx). apply atl_step in Hx; [|apply lit_le in Hk0; tauto]. destruct Hx as (k1 & Hk1 & Hx).
         exists k1. split; [|exact Hx]. apply (lit_app2 cs _ p k1 Hp). eauto.
     + intros x Hx y. apply (IHb Okb). apply in_flat_map in Hx as (k1 & Hk1 & Hx). apply lit_le in Hk1.
-      eapply (Dq_le input ci multi); [|  |exact Hx]; [reflexivity|]. tauto.
+      eapply (Dq_le input ci multi single); [|  |exact Hx]; [reflexivity|]. tauto.
   - intros cs eol b IHb Hok p q Hp. cbn [ok_b] in Hok. apply andb_true_iff in Hok as [_ Okb].
     cbn [atl_b Db]. apply flat_map_eqv; [reflexivity|]. intros x Hx y. apply (IHb Okb).
-    apply in_flat_map in Hx as (k1 & Hk1 & Hx). apply lit_le in Hk1. eapply (Dan_le input ci multi); [|exact Hx]. tauto.
+    apply in_flat_map in Hx as (k1 & Hk1 & Hx). apply lit_le in Hk1. eapply (Dan_le input ci multi single); [|exact Hx]. tauto.
+  - intros cs q0 b IHb Hok p q Hp. cbn [ok_b] in Hok. apply andb_true_iff in Hok as [Hok Okb]. apply andb_true_iff in Hok as [_ Hkq].
+    cbn [atl_b Db]. apply flat_map_eqv; [reflexivity|]. intros x Hx y. apply (IHb Okb).
+    apply in_flat_map in Hx as (k1 & Hk1 & Hx). apply lit_le in Hk1. eapply (Dd_le input ci multi single xpath); [exact Hkq| |exact Hx]. tauto.
   - intros b IHb Hok p q Hp. exact (IHb Hok p q Hp).
   - intros b IHb a IHa Hok p q Hp. cbn [ok_a] in Hok. apply andb_true_iff in Hok as [Okb Oka].
     cbn [atl_a Da]. rewrite !in_app_iff, (IHb Okb p q Hp), (IHa Oka p q Hp). reflexivity.
 Qed.
 
 Theorem bnd_D xpath :
-     (forall b, ok_b xpath b = true -> forall p q, p <= n -> (In q (Db input ci multi (bnd_b b) p) <-> In q (Db input ci multi b p)))
-  /\ (forall a, ok_a xpath a = true -> forall p q, p <= n -> (In q (Da input ci multi (bnd_a a) p) <-> In q (Da input ci multi a p))).
+     (forall b, ok_b xpath b = true -> forall p q, p <= n -> (In q (Db input ci multi single (bnd_b b) p) <-> In q (Db input ci multi single b p)))
+  /\ (forall a, ok_a xpath a = true -> forall p q, p <= n -> (In q (Da input ci multi single (bnd_a a) p) <-> In q (Da input ci multi single a p))).
 Proof.
   apply branch_alt_ind.
   - intros cs _ p q Hp. reflexivity.
@@ -403,12 +420,12 @@ Proof.
     apply flat_map_eqv.
     + intros x. apply flat_map_eqv; [reflexivity|]. intros k Hk y. apply (IHa Oka). apply lit_le in Hk. tauto.
     + intros x Hx y. apply (IHb Okb). apply in_flat_map in Hx as (k & Hk & Hx). apply lit_le in Hk.
-      eapply (proj2 (D_le input ci multi xpath)); [apply (proj2 (bnd_ok xpath)); exact Oka| |exact Hx]. tauto.
+      eapply (proj2 (D_le input ci multi single xpath)); [apply (proj2 (bnd_ok xpath)); exact Oka| |exact Hx]. tauto.
   - intros cs c k rel b IHb Hok p q Hp. cbn [ok_b] in Hok. apply andb_true_iff in Hok as [Hok Okb].
     apply andb_true_iff in Hok as [_ Hkq].
-    assert (Same : forall k0, okq k0 = true -> In q (Db input ci multi (BQ cs c k0 rel (bnd_b b)) p) <-> In q (Db input ci multi (BQ cs c k0 rel b) p)).
+    assert (Same : forall k0, okq k0 = true -> In q (Db input ci multi single (BQ cs c k0 rel (bnd_b b)) p) <-> In q (Db input ci multi single (BQ cs c k0 rel b) p)).
     { intros k0 Hk0q. cbn [Db]. apply flat_map_eqv; [reflexivity|]. intros x Hx y. apply (IHb Okb).
-      apply in_flat_map in Hx as (k1 & Hk1 & Hx). apply lit_le in Hk1. eapply (Dq_le input ci multi); [exact Hk0q| |exact Hx]. tauto. }
+      apply in_flat_map in Hx as (k1 & Hk1 & Hx). apply lit_le in Hk1. eapply (Dq_le input ci multi single); [exact Hk0q| |exact Hx]. tauto. }
     destruct k as [| | |ds [| |d2]]; cbn [bnd_b]; try (apply Same; exact Hkq).
     destruct (dec ds <? dec d2)%N eqn:Hlt; [|apply Same; exact Hkq]. apply N.ltb_lt in Hlt.
     (* {n,m}, n < m *)
@@ -417,7 +434,7 @@ Proof.
     + intros (k2 & Hk2 & H). apply in_flat_map in Hk2 as (k1 & Hk1 & Hk2).
       apply (lit_app2 cs _ p k1 Hp) in Hk1. destruct Hk1 as (k0 & Hk0 & Hk1).
       assert (L0 : k0 <= n) by (apply lit_le in Hk0; tauto). assert (L1 : k1 <= n) by (apply lit_le in Hk1; tauto).
-      assert (L2 : k2 <= n) by (exact (Dq_le input ci multi c QOpt rel k1 k2 eq_refl L1 Hk2)).
+      assert (L2 : k2 <= n) by (exact (Dq_le input ci multi single c QOpt rel k1 k2 eq_refl L1 Hk2)).
       apply opts_D in H; [|exact L2]. destruct H as (k3 & R & H).
       exists k3. split.
       * apply in_flat_map. exists k0. split; [exact Hk0|]. apply bnd_step; [exact Hlt|exact L0|].
@@ -431,7 +448,7 @@ Proof.
       apply bnd_step in Hk3; [|exact Hlt|exact L0]. destruct Hk3 as (k1 & Hk1 & R). fold d in R. rewrite Hd in R.
       cbn [repeat seq_reach] in R. destruct R as (k2 & Hk2 & R).
       assert (L1 : k1 <= n) by (apply lit_le in Hk1; tauto).
-      assert (L2 : k2 <= n) by (exact (Dq_le input ci multi c QOpt rel k1 k2 eq_refl L1 Hk2)).
+      assert (L2 : k2 <= n) by (exact (Dq_le input ci multi single c QOpt rel k1 k2 eq_refl L1 Hk2)).
       assert (L3 : k3 <= n).
       { assert (Wf : quant_wf (RSeq (repeat (RQuant (RChar c) 0 (Some 1%N) (negb rel)) (d - 1)))).
         { apply wf_opts. }
@@ -441,23 +458,26 @@ Proof.
       * apply opts_D; [exact L2|]. exists k3. split; [exact R|]. apply (IHb Okb); [exact L3|exact H].
   - intros cs eol b IHb Hok p q Hp. cbn [ok_b] in Hok. apply andb_true_iff in Hok as [_ Okb].
     cbn [bnd_b Db]. apply flat_map_eqv; [reflexivity|]. intros x Hx y. apply (IHb Okb).
-    apply in_flat_map in Hx as (k1 & Hk1 & Hx). apply lit_le in Hk1. eapply (Dan_le input ci multi); [|exact Hx]. tauto.
+    apply in_flat_map in Hx as (k1 & Hk1 & Hx). apply lit_le in Hk1. eapply (Dan_le input ci multi single); [|exact Hx]. tauto.
+  - intros cs q0 b IHb Hok p q Hp. cbn [ok_b] in Hok. apply andb_true_iff in Hok as [Hok Okb]. apply andb_true_iff in Hok as [_ Hkq].
+    cbn [bnd_b Db]. apply flat_map_eqv; [reflexivity|]. intros x Hx y. apply (IHb Okb).
+    apply in_flat_map in Hx as (k1 & Hk1 & Hx). apply lit_le in Hk1. eapply (Dd_le input ci multi single xpath); [exact Hkq| |exact Hx]. tauto.
   - intros b IHb Hok p q Hp. exact (IHb Hok p q Hp).
   - intros b IHb a IHa Hok p q Hp. cbn [ok_a] in Hok. apply andb_true_iff in Hok as [Okb Oka].
     cbn [bnd_a Da]. rewrite !in_app_iff, (IHb Okb p q Hp), (IHa Oka p q Hp). reflexivity.
 Qed.
 
 Lemma Dmatch_eqv a1 a2 :
-  (forall p q, p <= n -> (In q (Da input ci multi a1 p) <-> In q (Da input ci multi a2 p))) ->
-  Dmatch input ci multi a1 = Dmatch input ci multi a2.
+  (forall p q, p <= n -> (In q (Da input ci multi single a1 p) <-> In q (Da input ci multi single a2 p))) ->
+  Dmatch input ci multi single a1 = Dmatch input ci multi single a2.
 Proof.
   intros H. unfold Dmatch. fold n.
   assert (G : forall l, (forall m, In m l -> m <= n) ->
-            existsb (fun m => match Da input ci multi a1 m with [] => false | _ => true end) l
-            = existsb (fun m => match Da input ci multi a2 m with [] => false | _ => true end) l).
+            existsb (fun m => match Da input ci multi single a1 m with [] => false | _ => true end) l
+            = existsb (fun m => match Da input ci multi single a2 m with [] => false | _ => true end) l).
   { induction l as [|m t IH]; intros Hl; [reflexivity|]. cbn [existsb]. rewrite IH by (intros; apply Hl; right; auto).
     f_equal. specialize (H m). assert (Hm : m <= n) by (apply Hl; left; reflexivity).
-    destruct (Da input ci multi a1 m) as [|x1 t1] eqn:E1; destruct (Da input ci multi a2 m) as [|x2 t2] eqn:E2; auto.
+    destruct (Da input ci multi single a1 m) as [|x1 t1] eqn:E1; destruct (Da input ci multi single a2 m) as [|x2 t2] eqn:E2; auto.
     - exfalso. apply (proj2 (H x2 Hm)). left. reflexivity.
     - exfalso. apply (proj1 (H x1 Hm)). left. reflexivity. }
   apply G. intros m Hm. apply in_seq in Hm. lia.
@@ -468,28 +488,28 @@ End Laws.
 Section E2E.
 Variable rw : alt -> alt.
 Hypothesis rw_ok : forall xpath a, ok_a xpath a = true -> ok_a xpath (rw a) = true.
-Hypothesis rw_D : forall xpath input ci multi a, ok_a xpath a = true -> forall p q, p <= length input ->
-  (In q (Da input ci multi (rw a) p) <-> In q (Da input ci multi a p)).
+Hypothesis rw_D : forall xpath input ci multi single a, ok_a xpath a = true -> forall p q, p <= length input ->
+  (In q (Da input ci multi single (rw a) p) <-> In q (Da input ci multi single a p)).
 
 Theorem rewrite_same_verdict fl a input :
-  ok_a (f_xpath fl) a = true -> f_literal fl = false -> f_ws fl = false -> (N.of_nat (length input) < umax)%N ->
+  ok_a (f_xpath fl) a = true -> f_literal fl = false -> f_ws fl = false -> (N.of_nat (length input) < umax)%N -> valid_in input ->
   exists prog prog', compile true fl (show_a a) = Ok prog /\ compile true fl (show_a (rw a)) = Ok prog'
     /\ match matches prog input 0 st0, matches prog' input 0 st0 with
        | MTrue _, MTrue _ | MFalse _, MFalse _ => True
        | _, _ => False
        end.
 Proof.
-  intros Hok Hq Hw Hfit.
-  destruct (compile_grammar_D fl a input Hok Hq Hw Hfit) as (prog & E & M).
-  destruct (compile_grammar_D fl (rw a) input (rw_ok _ _ Hok) Hq Hw Hfit) as (prog' & E' & M').
+  intros Hok Hq Hw Hfit Hval.
+  destruct (compile_grammar_D fl a input Hok Hq Hw Hfit Hval) as (prog & E & M).
+  destruct (compile_grammar_D fl (rw a) input (rw_ok _ _ Hok) Hq Hw Hfit Hval) as (prog' & E' & M').
   exists prog, prog'. split; [exact E|]. split; [exact E'|].
-  rewrite (Dmatch_eqv input (f_case fl) (f_multi fl) (rw a) a (rw_D (f_xpath fl) input (f_case fl) (f_multi fl) a Hok)) in M'.
+  rewrite (Dmatch_eqv input (f_case fl) (f_multi fl) (f_single fl) (rw a) a (rw_D (f_xpath fl) input (f_case fl) (f_multi fl) (f_single fl) a Hok)) in M'.
   destruct (matches prog input 0 st0); destruct (matches prog' input 0 st0); try contradiction; auto; congruence.
 Qed.
 End E2E.
 
 Theorem plus_law_end_to_end fl a input :
-  ok_a (f_xpath fl) a = true -> f_literal fl = false -> f_ws fl = false -> (N.of_nat (length input) < umax)%N ->
+  ok_a (f_xpath fl) a = true -> f_literal fl = false -> f_ws fl = false -> (N.of_nat (length input) < umax)%N -> valid_in input ->
   exists prog prog', compile true fl (show_a a) = Ok prog /\ compile true fl (show_a (plus_a a)) = Ok prog'
     /\ match matches prog input 0 st0, matches prog' input 0 st0 with
        | MTrue _, MTrue _ | MFalse _, MFalse _ => True
@@ -498,11 +518,11 @@ Theorem plus_law_end_to_end fl a input :
 Proof.
   apply (rewrite_same_verdict plus_a).
   - intros xpath a0. apply (proj2 (plus_ok xpath)).
-  - intros xpath input0 ci multi a0. apply (proj2 (plus_D input0 ci multi xpath)).
+  - intros xpath input0 ci multi single a0. apply (proj2 (plus_D input0 ci multi single xpath)).
 Qed.
 
 Theorem opt_law_end_to_end fl a input :
-  ok_a (f_xpath fl) a = true -> f_literal fl = false -> f_ws fl = false -> (N.of_nat (length input) < umax)%N ->
+  ok_a (f_xpath fl) a = true -> f_literal fl = false -> f_ws fl = false -> (N.of_nat (length input) < umax)%N -> valid_in input ->
   exists prog prog', compile true fl (show_a a) = Ok prog /\ compile true fl (show_a (opt_a a)) = Ok prog'
     /\ match matches prog input 0 st0, matches prog' input 0 st0 with
        | MTrue _, MTrue _ | MFalse _, MFalse _ => True
@@ -511,12 +531,12 @@ Theorem opt_law_end_to_end fl a input :
 Proof.
   apply (rewrite_same_verdict opt_a).
   - intros xpath a0. apply (proj2 (opt_ok xpath)).
-  - intros xpath input0 ci multi a0. apply (proj2 (opt_D input0 ci multi xpath)).
+  - intros xpath input0 ci multi single a0. apply (proj2 (opt_D input0 ci multi single xpath)).
 Qed.
 
 (* c{n,} and c...cc* (n copies, then a star), from the pattern text, with the counts as written in decimal *)
 Theorem at_least_law_end_to_end fl a input :
-  ok_a (f_xpath fl) a = true -> f_literal fl = false -> f_ws fl = false -> (N.of_nat (length input) < umax)%N ->
+  ok_a (f_xpath fl) a = true -> f_literal fl = false -> f_ws fl = false -> (N.of_nat (length input) < umax)%N -> valid_in input ->
   exists prog prog', compile true fl (show_a a) = Ok prog /\ compile true fl (show_a (atl_a a)) = Ok prog'
     /\ match matches prog input 0 st0, matches prog' input 0 st0 with
        | MTrue _, MTrue _ | MFalse _, MFalse _ => True
@@ -525,12 +545,12 @@ Theorem at_least_law_end_to_end fl a input :
 Proof.
   apply (rewrite_same_verdict atl_a).
   - intros xpath a0. apply (proj2 (atl_ok xpath)).
-  - intros xpath input0 ci multi a0. apply (proj2 (atl_D input0 ci multi xpath)).
+  - intros xpath input0 ci multi single a0. apply (proj2 (atl_D input0 ci multi single xpath)).
 Qed.
 
 (* c{n,m} with n < m and c...cc?...c? (n copies, then m-n optional ones), from the pattern text *)
 Theorem bounded_law_end_to_end fl a input :
-  ok_a (f_xpath fl) a = true -> f_literal fl = false -> f_ws fl = false -> (N.of_nat (length input) < umax)%N ->
+  ok_a (f_xpath fl) a = true -> f_literal fl = false -> f_ws fl = false -> (N.of_nat (length input) < umax)%N -> valid_in input ->
   exists prog prog', compile true fl (show_a a) = Ok prog /\ compile true fl (show_a (bnd_a a)) = Ok prog'
     /\ match matches prog input 0 st0, matches prog' input 0 st0 with
        | MTrue _, MTrue _ | MFalse _, MFalse _ => True
@@ -539,5 +559,5 @@ Theorem bounded_law_end_to_end fl a input :
 Proof.
   apply (rewrite_same_verdict bnd_a).
   - intros xpath a0. apply (proj2 (bnd_ok xpath)).
-  - intros xpath input0 ci multi a0. apply (proj2 (bnd_D input0 ci multi xpath)).
+  - intros xpath input0 ci multi single a0. apply (proj2 (bnd_D input0 ci multi single xpath)).
 Qed.
